@@ -289,7 +289,7 @@ Definition step (s : st) (l : label) : st :=
   | LCClose => match cons s with CExit _ => set_q (set_rx_open s false) [] | _ => s end
   | LFinish => match cons s with
                | CExit r => if rx_open s then s
-                            else add_log (set_exits (set_status (set_cons s (CDead r)) 6) (exits s ++ [r])) (EExit r)
+                            else add_log (set_exits (set_status (set_cons s (CDead r)) (Nat.max (status s) 6)) (exits s ++ [r])) (EExit r)
                | _ => s
                end
   end.
